@@ -36,6 +36,7 @@ import (
 	"errors"
 	"fmt"
 	"math"
+	"reflect"
 	"strconv"
 	"strings"
 	"sync"
@@ -93,6 +94,7 @@ type vScenario struct {
 	deadline, cancel, stop int64 // -1 = none
 	script                 []vAttempt
 	evStop, evCancel       int // F2: Shutdown / cancel called from inside attempt k (-1 = never)
+	ideal                  *vIdeal // F4 requests with a near deadline: the reference schedule
 }
 
 // vErr is an error TREE: a wrapper (codes 0..4, one wrapped error), a combination of several errors
@@ -105,6 +107,10 @@ type vErr struct {
 	sub  *vErr
 	kids []*vErr
 	jk   int // kind of combination: 0 errors.Join, 1 fmt.Errorf("%w | %w"), 2 multierr.Combine
+	// code 7: an error type with its OWN As (and Is) method wrapping sub: what its As method answers true to
+	cPerm, cShut, cThr bool
+	cSig               int // partial data of that signal (rem), -1 = none
+	isAny              bool
 }
 
 func vChain(ls []vLayer) *vErr {
@@ -148,17 +154,23 @@ func vWalk(e *vErr, f func(*vErr, int), depth int) {
 	}
 }
 
-func vIsPerm(e *vErr) bool { return vFind(e, func(x *vErr) bool { return x.code == 0 }) != nil }
+func vIsPerm(e *vErr) bool {
+	return vFind(e, func(x *vErr) bool { return x.code == 0 || (x.code == 7 && x.cPerm) }) != nil
+}
+
+func vIsShutdownClassified(e *vErr) bool {
+	return vFind(e, func(x *vErr) bool { return x.code == 3 || (x.code == 7 && x.cShut) }) != nil
+}
 
 func vThrottle(e *vErr) (int64, bool) {
-	if f := vFind(e, func(x *vErr) bool { return x.code == 1 }); f != nil {
-		return f.d, true
+	if f := vFind(e, func(x *vErr) bool { return x.code == 1 || (x.code == 7 && x.cThr) }); f != nil {
+		return f.d, true // a custom As method cannot fill the unexported fields of throttleRetry: delay 0
 	}
 	return 0, false
 }
 
 func vPartial(sig int, e *vErr) ([]int64, bool) {
-	if f := vFind(e, func(x *vErr) bool { return x.code == 2 && x.sig == sig }); f != nil {
+	if f := vFind(e, func(x *vErr) bool { return (x.code == 2 && x.sig == sig) || (x.code == 7 && x.cSig == sig) }); f != nil {
 		return f.rem, true
 	}
 	return nil, false
@@ -318,6 +330,25 @@ func vSubset(r *vRand, p []int64) []int64 {
 }
 
 // vGenScript generates a script; cur tracks the payload a well-behaved backend would be answering about.
+// vClaim wraps e into an error type with its own As / Is methods and random claims
+func vClaim(r *vRand, sc *vScenario, cur []int64, e *vErr, allowPerm bool) *vErr {
+	n := &vErr{code: 7, sub: e, cSig: -1, isAny: r.Bool()}
+	switch r.Intn(6) {
+	case 0:
+		n.cPerm = allowPerm
+	case 1:
+		n.cShut = true
+	case 2:
+		n.cThr = true
+	case 3:
+		n.cSig, n.rem = sc.sig, vSubset(r, cur)
+	case 4:
+		n.cSig, n.rem = (sc.sig+1)%3, []int64{9}
+		n.cShut = r.Bool()
+	} // case 5: claims nothing (transparent)
+	return n
+}
+
 // vMember generates one further member of a combined error (what another destination of a fanning-out
 // exporter reported).  mild: only members that do not change the kind of the outcome.
 func vMember(r *vRand, sc *vScenario, cur []int64, thr []int64, mild bool) *vErr {
@@ -330,7 +361,7 @@ func vMember(r *vRand, sc *vScenario, cur []int64, thr []int64, mild bool) *vErr
 		}
 		return vChain([]vLayer{{code: 2, sig: sc.sig, rem: vSubset(r, cur)}})
 	}
-	switch r.Pick(4, 2, 1, 2, 3, 1, 1, 1) {
+	switch r.Pick(4, 2, 1, 2, 3, 1, 1, 2, 1) {
 	case 0:
 		return vChain(nil)
 	case 1:
@@ -345,6 +376,8 @@ func vMember(r *vRand, sc *vScenario, cur []int64, thr []int64, mild bool) *vErr
 		return vChain([]vLayer{{code: 3}})
 	case 6: // a nested combination with a permanent member
 		return &vErr{code: 5, jk: r.Intn(3), kids: []*vErr{vChain(nil), vChain([]vLayer{{code: 0}})}}
+	case 7:
+		return vClaim(r, sc, cur, vChain(nil), true)
 	}
 	return &vErr{code: 5, jk: r.Intn(3), kids: []*vErr{vChain([]vLayer{{code: 1, d: vPickMs(r, thr...)}}), vChain([]vLayer{{code: 4}})}}
 }
@@ -429,6 +462,9 @@ func vGenScript(r *vRand, sc *vScenario, durs []int64, maxLen int, thr []int64) 
 				a.layers = append(a.layers, vLayer{code: 0})
 			}
 			a.tree = vCombine(r, sc, a.layers, cur, thr, false)
+			if r.Intn(9) == 0 { // ... wrapped by an error type with its own As / Is methods
+				a.tree = vClaim(r, sc, cur, a.tree, true)
+			}
 			if rem, has := vPartial(sc.sig, a.tree); has { // what a well-behaved backend answers about next
 				cur = rem
 			}
@@ -651,6 +687,54 @@ func vRequest(sig int, ids []int64) Request {
 
 var vBaseErr = errors.New("backend unavailable")
 
+// vClaimErr is an error type with its own As and Is methods (see the Go documentation of errors.As / errors.Is):
+// As answers true for the target types it claims; the unexported targets of other packages are recognised by
+// reflection and left at their zero value, the exported consumererror.Logs/Traces/Metrics are filled in.
+type vClaimErr struct {
+	inner error
+	n     *vErr
+}
+
+func (e vClaimErr) Error() string { return "custom: " + e.inner.Error() }
+func (e vClaimErr) Unwrap() error { return e.inner }
+func (e vClaimErr) Is(error) bool { return e.n.isAny }
+func (e vClaimErr) As(target any) bool {
+	switch t := target.(type) {
+	case *consumererror.Logs:
+		if e.n.cSig == 0 {
+			*t = consumererror.NewLogs(e.inner, vLogs(e.n.rem)).(consumererror.Logs)
+			return true
+		}
+		return false
+	case *consumererror.Traces:
+		if e.n.cSig == 1 {
+			*t = consumererror.NewTraces(e.inner, vTraces(e.n.rem)).(consumererror.Traces)
+			return true
+		}
+		return false
+	case *consumererror.Metrics:
+		if e.n.cSig == 2 {
+			*t = consumererror.NewMetrics(e.inner, vMetrics(e.n.rem)).(consumererror.Metrics)
+			return true
+		}
+		return false
+	}
+	rt := reflect.TypeOf(target)
+	if rt == nil || rt.Kind() != reflect.Ptr {
+		return false
+	}
+	el := rt.Elem()
+	switch {
+	case el.Name() == "permanent" && strings.HasSuffix(el.PkgPath(), "consumer/consumererror"):
+		return e.n.cPerm
+	case el.Name() == "shutdownErr" && strings.HasSuffix(el.PkgPath(), "internal/experr"):
+		return e.n.cShut
+	case el.Name() == "throttleRetry" && strings.HasSuffix(el.PkgPath(), "exporterhelper/internal"):
+		return e.n.cThr
+	}
+	return false
+}
+
 func vBuildErr(e *vErr, base error) error {
 	switch e.code {
 	case 6:
@@ -674,6 +758,8 @@ func vBuildErr(e *vErr, base error) error {
 	}
 	in := vBuildErr(e.sub, base)
 	switch e.code {
+	case 7:
+		return vClaimErr{inner: in, n: e}
 	case 0:
 		return consumererror.NewPermanent(in)
 	case 1:
@@ -1012,7 +1098,7 @@ func vOracle(out *vOut, term string, sc *vScenario, obs *vObs) {
 	}
 	// classification of the returned error: errors.As semantics over the whole tree of the last exporter error
 	if obs.err != nil {
-		wantSd := obs.verdict == 5 || vFind(lastc.e, func(x *vErr) bool { return x.code == 3 }) != nil
+		wantSd := obs.verdict == 5 || vIsShutdownClassified(lastc.e)
 		if wantSd != obs.isShutdown {
 			fail("shutdown-classification-wrong", fmt.Sprintf("IsShutdownErr=%v, expected %v for %q", obs.isShutdown, wantSd, obs.err.Error()))
 		}
@@ -1081,6 +1167,12 @@ func vTokens(e *vErr, out []string) []string {
 		out = append(out, vPair(vZ(1), vZs([]int64{e.d})))
 	case 2:
 		out = append(out, vPair(vZ(2), vZs(append([]int64{int64(e.sig)}, e.rem...))))
+	case 7:
+		args := []int64{vB(e.isAny), vB(e.cPerm), vB(e.cShut), vB(e.cThr), int64(e.cSig)}
+		if e.cSig >= 0 {
+			args = append(args, e.rem...)
+		}
+		out = append(out, vPair(vZ(7), vZs(args)))
 	default:
 		out = append(out, vPair(vZ(int64(e.code)), "[]"))
 	}
@@ -1226,6 +1318,24 @@ func vGenGroup(r *vRand, mode int) *vGroup {
 		sc.sig = r.Intn(3)
 		sc.payload = vGenPayload(r)
 		vGenFailures(r, &sc, nfail, dur0, first)
+		// the request's own context: a far deadline, a deadline that cuts the run (randomization 0 only, every
+		// comparison >= vMargin from equality), or a cancellation from inside one of its attempts
+		switch c := r.Intn(5); {
+		case c == 0:
+			sc.deadline = int64(time.Hour)
+		case c == 1 && mode != 2 && sc.rfN == 0:
+			cands := []int64{45, 70, 95, 130, 170, 230}
+			for t, off := 0, r.Intn(len(cands)); t < len(cands); t++ {
+				sc.deadline = cands[(t+off)%len(cands)] * vMs
+				if id := vSim(&sc); id.verdict != 7 && id.margin >= vMargin {
+					sc.ideal = id
+					break
+				}
+				sc.deadline = -1
+			}
+		case c == 2 && mode != 2:
+			sc.evCancel = r.Intn(nfail)
+		}
 		g.reqs = append(g.reqs, &sc)
 		g.roles = append(g.roles, role)
 	}
@@ -1275,6 +1385,7 @@ func vRunGroup(g *vGroup) (all []*vObs, stopAt []int64, unstable bool, rerr erro
 	set.Logger = zap.New(core)
 	all, stopAt = make([]*vObs, n), make([]int64, n)
 	t0 := make([]time.Time, n)
+	cancels := make([]context.CancelFunc, n)
 	var stopDone atomic.Bool
 	var waiters, running sync.WaitGroup
 	for i := range g.reqs {
@@ -1292,24 +1403,38 @@ func vRunGroup(g *vGroup) (all []*vObs, stopAt []int64, unstable bool, rerr erro
 		sc, obs := g.reqs[i], all[i]
 		k := len(obs.calls)
 		c := vCall{start: int64(time.Since(t0[i])), payload: vIDsOf(req), dlSeen: -1, afterStop: stopDone.Load()}
-		if _, has := ctx.Deadline(); has {
-			c.dlClass = 2
+		if dl, has := ctx.Deadline(); has {
+			c.dlSeen, c.dlClass = int64(dl.Sub(t0[i])), 2
+			if sc.deadline >= 0 && dl.Equal(t0[i].Add(time.Duration(sc.deadline))) {
+				c.dlClass = 1
+			}
 		}
 		if g.mode == 2 && g.roles[i] == 1 && k == 0 {
 			running.Done()
+		}
+		if sc.evCancel == k {
+			obs.cancelReal = int64(time.Since(t0[i]))
+			cancels[i]()
 		}
 		var err error
 		if k >= len(sc.script) {
 			c.end, c.ok = c.start, true
 		} else {
 			a := sc.script[k]
-			time.Sleep(time.Duration(a.dur))
-			c.lateWake = int64(time.Since(t0[i])) - (c.start + a.dur)
-			if a.ok {
-				c.ok = true
-			} else {
-				c.e = a.tree
-				err = vBuildErr(a.tree, obs.base)
+			tm := time.NewTimer(time.Duration(a.dur))
+			select {
+			case <-tm.C:
+				c.lateWake = int64(time.Since(t0[i])) - (c.start + a.dur)
+				if a.ok {
+					c.ok = true
+				} else {
+					c.e = a.tree
+					err = vBuildErr(a.tree, obs.base)
+				}
+			case <-ctx.Done():
+				tm.Stop()
+				c.ctxErr = true
+				err = fmt.Errorf("%w #r%d#", ctx.Err(), i) // marked, so that the logged delay can be attributed
 			}
 			c.end = int64(time.Since(t0[i]))
 		}
@@ -1334,7 +1459,15 @@ func vRunGroup(g *vGroup) (all []*vObs, stopAt []int64, unstable bool, rerr erro
 		sc := g.reqs[i]
 		req := vRequest(sc.sig, sc.payload)
 		t0[i] = time.Now()
-		all[i].err = be.Send(context.WithValue(context.Background(), vReqKey{}, i), req)
+		ctx := context.WithValue(context.Background(), vReqKey{}, i)
+		if sc.deadline >= 0 {
+			var cdl context.CancelFunc
+			ctx, cdl = context.WithDeadline(ctx, t0[i].Add(time.Duration(sc.deadline)))
+			defer cdl()
+		}
+		ctx, cancels[i] = context.WithCancel(ctx)
+		defer cancels[i]()
+		all[i].err = be.Send(ctx, req)
 		all[i].ret = int64(time.Since(t0[i]))
 	}
 	var wg sync.WaitGroup
@@ -1417,6 +1550,13 @@ func vRunGroup(g *vGroup) (all []*vObs, stopAt []int64, unstable bool, rerr erro
 				unstable = true
 			}
 		}
+		if id := g.reqs[i].ideal; id != nil { // a near deadline: the run must have followed the reference schedule
+			for k, c := range obs.calls {
+				if k < len(id.end) && vAbs(c.end-id.end[k]) > vJitter {
+					unstable = true
+				}
+			}
+		}
 		if g.mode != 2 || g.roles[i] == 3 || len(obs.calls) == 0 {
 			continue
 		}
@@ -1479,6 +1619,16 @@ func vEmit(out *vOut, sc *vScenario, obs *vObs, cancelAt, stopAt int64) {
 				switch {
 				case x.code == 5:
 					out.Stat(fmt.Sprintf("outcome_combination_kind_%d", x.jk), 1)
+				case x.code == 7:
+					out.Stat("outcome_custom_as_is", 1)
+					for _, f := range []struct {
+						on bool
+						n  string
+					}{{x.cPerm, "permanent"}, {x.cShut, "shutdown"}, {x.cThr, "throttle"}, {x.cSig >= 0, "partial"}, {x.isAny, "is_anything"}} {
+						if f.on {
+							out.Stat("outcome_custom_claims_"+f.n, 1)
+						}
+					}
 				case x.code < 5 && depth == 0:
 					out.Stat(fmt.Sprintf("outcome_layer_%d", x.code), 1)
 				case x.code < 5:
@@ -1605,7 +1755,16 @@ func TestVerifC05(t *testing.T) {
 		}
 		out.Stat(fmt.Sprintf("group_mode_%d", j.g.mode), 1)
 		for i, sc := range j.g.reqs {
-			vEmit(out, sc, j.obs[i], -1, j.stopAt[i])
+			cancelAt, _ := vEventInstants(sc, j.obs[i])
+			vEmit(out, sc, j.obs[i], cancelAt, j.stopAt[i])
+			if sc.ideal != nil {
+				out.Stat("group_request_near_deadline", 1)
+			} else if sc.deadline >= 0 {
+				out.Stat("group_request_far_deadline", 1)
+			}
+			if sc.evCancel >= 0 {
+				out.Stat("group_request_cancelled", 1)
+			}
 			if j.g.mode == 2 {
 				out.Stat(fmt.Sprintf("group_role_%d", j.g.roles[i]), 1)
 			}
